@@ -2,7 +2,8 @@
 from __future__ import annotations
 
 from ..grammar import cmp_writer
-from .wire import Wire, fdesc, spec_tagged_default_term
+from .. import timeflow
+from .wire import Wire, fdesc, spec_tagged_default_term, TIME_TYPES
 
 PID = "C02"
 LEVEL = "other"
@@ -46,6 +47,9 @@ def check(rep, ctx):
                   message=f"memoised on parameters {m['bad_params']}: instances that compare equal but encode differently (0.0 / -0.0, 1 / True / "
                           f"1.0, datetimes differing in fold) share one cached encoding", file=m["file"], line=m["line"])
     rep.count(R_M, 1, instance="scan")
+    R_TM = rep.rule("C02-time", "durations and timestamps are converted to the millisecond integer on the wire exactly (no inexact float "
+                    "truncated, no float on a 64-bit duration, measured from the UTC epoch)", floor=380,
+                    necessary_because="int(4.06 * 1000) is 4059: the big-endian int64 on the wire is 1 ms too small")
     R_P = rep.rule("C02-plan", "a writer plan can be derived for the class", floor=1600)
     n_tagged_paths = 0
     for key, cls, plan in W.classes():
@@ -78,6 +82,23 @@ def check(rep, ctx):
             rep.check(R_F if item["kind"] == "regular" else R_TF, not diffs, construct=construct,
                       stmt=f"{fdesc(cls, f)} written by {pf['w_codec']['fn'] if pf.get('w_codec') else '?'}",
                       message="; ".join(diffs), details={"writer": w, "spec": spec}, **W.codec_loc(pf.get("w_codec")))
+            kt_ = (f.get("metadata") or {}).get("kafka_type")
+            if kt_ in TIME_TYPES:
+                kind_, bits_ = TIME_TYPES[kt_]
+                wd = pf["w"]
+                while wd.get("k") == "array":
+                    wd = wd["item"]
+                if wd.get("k") == "scalar":
+                    q_, issues_ = timeflow.write_side(wd["conv"], bits_, kind_)
+                    fn_ = wd.get("_codec", "?")
+                    if q_ is None:
+                        rep.limit(f"{fn_}: time conversion not understood: {timeflow.show(wd['conv'])[:160]}")
+                    bad_ = [i for i in issues_ if i[0] in ("T-float64", "T-trunc", "T-epoch", "T-unit", "T-int")]
+                    for rule_, msg_, op_ in bad_:
+                        rep.check(R_TM, False, construct=fn_, stmt=timeflow.show(wd["conv"]), message=f"{rule_}: {msg_}", instance=construct,
+                                  **W.codec_loc({"fn": fn_, "line": wd.get("_line", 0)}))
+                    if q_ is not None and not bad_:
+                        rep.check(R_TM, True, construct=fn_, stmt=timeflow.show(wd["conv"]), instance=construct)
             if len(rep.samples) < 3 and item["kind"] == "regular":
                 rep.sample({"obligation": "C02-field", "field": construct, "spec": spec, "writer": w})
         import json as _json
